@@ -115,6 +115,13 @@ func VP_C01_cnf_slice() {
 	maxN := zzvp.Param("n", 2)
 	n := zzvp.Choose("n", maxN) + 1
 	cnf, orig := vpSymCNF(n, zzvp.Param("m", 2), zzvp.Param("k", 2))
+	if c := zzvp.Param("copies", 0); c > 0 && len(cnf) > 0 {
+		// the first clause written 1..c+1 times (a formula is a list, not a set)
+		for r := zzvp.Choose("copies", c+1); r > 0; r-- {
+			cnf = append(cnf, vpCopy(cnf[0]))
+			orig = append(orig, vpCopy(orig[0]))
+		}
+	}
 	pb := ParseSliceNb(cnf, n)
 	spec := vpCNFSat(orig, n)
 	if pb.Status == Unsat {
@@ -212,6 +219,11 @@ func vpRandom3SAT(n, m, seed int) [][]int {
 
 // vpBigSkeleton: skeletons that need tens of conflicts (index 100+).
 func vpBigSkeleton(k int) [][]int {
+	if k >= 100 {
+		// sweep: random 3-SAT at the satisfiability threshold, one instance per index
+		n := zzvp.Param("sweepn", 10)
+		return vpRandom3SAT(n, n*43/10, zzvp.Param("seed", 0)+k)
+	}
 	switch k {
 	case 0:
 		return vpPHP(4, 3)
@@ -225,6 +237,9 @@ func vpBigSkeleton(k int) [][]int {
 		return vpPHP(7, 5)
 	case 5:
 		return vpPHP(8, 6)
+	case 7:
+		// satisfiable, 9 variables: a conflict learns a binary clause that later propagates from its second literal
+		return [][]int{{8, -6, 9}, {-9, 3, 7}, {-9, 3, -7}, {9, 8, 6}, {-8, -3, 1}, {1, -8, 3}, {2, 4, -5}, {-2, 5, 6}}
 	default:
 		return vpRandom3SAT(20, 91, zzvp.Param("seed", 0)+3)
 	}
